@@ -12,7 +12,7 @@ PROP = "C10"
 
 
 def contracts():
-    return _c08.contracts()
+    return [_c08.update_ref_contract(False), _c08.update_ref_contract(True)]
 
 
 ASSUMPTIONS = _c08.ASSUMPTIONS + ["async functions are out of reach: yield-point invariants not discharged"]
